@@ -354,6 +354,7 @@ def run(ctx):
                  "ast -> Gallina printer for get_routes of ArcBasedRoutingProblem; meaning of the emitted combinators -- "
                  "while loops with fuel, list pop / item update, comprehensions, np.nonzero / np.array of tuples-or-None / "
                  "np.flip / .T / np.lexsort as a stable sort: coq/theories/PyRoutes.v; vocabulary PyArcRoutes.v)")
+    from props import pysem; pysem.run(ctx, pysem.GROUPS_FOR.get(ctx.pid, ()))
     rng = ctx.rng
     nmax = 14 if ctx.quick else 16
     n_random = 260 if ctx.quick else 2500
